@@ -44,7 +44,12 @@ impl<'a, T: AbstractDomain + DomainInsertion + HasTop + Eq + From<String>> Conte
         state: &mut State<T>,
         arg_to_value_map: HashMap<Arg, Option<String>>,
     ) {
-        for (argument, value) in arg_to_value_map.into_iter() {
+        // If two arguments point to the same location then the value that is added last wins.
+        // So process the arguments in a fixed order (and not in the iteration order of the hash map)
+        // to get the same result in every run.
+        let mut args_with_values: Vec<(Arg, Option<String>)> = arg_to_value_map.into_iter().collect();
+        args_with_values.sort_by_cached_key(|(argument, _)| format!("{argument:?}"));
+        for (argument, value) in args_with_values.into_iter() {
             if argument.get_data_type().unwrap() == Datatype::Pointer {
                 if let Ok(data) =
                     pi_state.eval_parameter_arg(&argument, &self.project.runtime_memory_image)
